@@ -236,6 +236,10 @@ class MapMonitors:
                 if not self.check_mapping(F.slice(a, b), RF.slice(a, b), size0 + 2,
                                           dict(det, law="roundtrip-slice", a=a, b=b)):
                     return False
+                # a copy of a window is the same window (mirror indices keep their meaning)
+                if not self.check_mapping(F.slice(a, b).copy(), RF.slice(a, b), size0 + 2,
+                                          dict(det, law="roundtrip-slice-copy", a=a, b=b)):
+                    return False
         B = Mapping([m.invert() for m in reversed(maps)])
         RB = refmap.RMapping([r.inverted() for r in reversed(rmaps)])
         for k in range(n):
